@@ -39,6 +39,8 @@ class ScoreLaws (S : Type) [ScoreOps S] : Prop where
   one_mul : ∀ a : S, mul one a = a
   div_le_div_right : ∀ a b c : S, lt a b = false → lt zero c = true → lt (div a c) (div b c) = false
   sub_zero_neg : ∀ a : S, lt zero a = true → lt (sub zero a) zero = true
+  /-- an exact rational literal `≥ 1` maps to a score `≥ 1` (C13: regenerated context-boost table) -/
+  ofQ_ge_one : ∀ q : Q, (q.den : Int) ≤ q.num → 0 < q.den → lt (ofQ q : S) one = false
 
 namespace ScoreLaws
 variable {S : Type} [ScoreOps S] [ScoreLaws S]
